@@ -14,8 +14,9 @@ META = dict(
 
 
 def run(ctx):
-    specs = [('c10_mask', 'c10.cpp', dict(opt='-O1')), ('c10_reg', 'c10.cpp', dict(opt='-O1', defs=['C10_MODE=REGISTRY']))]
+    specs = [('c10_mask', 'c10.cpp', dict(opt='-O1')), ('c10_reg', 'c10.cpp', dict(opt='-O1', defs=['C10_MODE=REGISTRY'])), ('c10_noop', 'c10n.cpp', dict(opt='-O1', access=True))]
     bins = ctx.build_many(specs)
     a = ['--thorough'] if ctx.thorough else []
     ctx.run(bins['c10_mask'], a)
     ctx.run(bins['c10_reg'], a)
+    ctx.run(bins['c10_noop'], a, parts=1)
